@@ -59,6 +59,8 @@
 //! [async-signal-safe]: http://www.man7.org/linux/man-pages/man7/signal-safety.7.html
 
 extern crate libc;
+#[cfg(sighook_verif)]
+extern crate sighook_shim;
 
 mod half_lock;
 
